@@ -1,6 +1,6 @@
 (** C06 — the Shape contract for Polygon and LaxPolygon (any number of loops of any sizes). *)
 From Coq Require Import ZArith List Bool Lia.
-From Geo Require Import Base.GoPrim Gen.C06Util Model.Shapes Proofs.C06_Slices Proofs.C06_Prefix.
+From Geo Require Import Base.GoPrim Gen.CellIDCov Model.Shapes Proofs.C06_Slices Proofs.C06_Prefix.
 Import ListNotations.
 Local Open Scope Z_scope.
 
